@@ -227,3 +227,32 @@ for _y in (1, 2, 3):
     for _mp in (1, 2, 3, None):
         for _c in (0, 1, 2):
             _make(_y, _mp, _c)
+
+
+# ---- "twins": tasks of one type without a tid field, told apart only by the value (or the type of the value) of
+# their single parameter.  1, 1.0 and True are equal in Python but are different parameter values; the two dicts
+# differ only in one value.  The spec-level task id is derived from the parameter.
+TWIN_VALUES = [1, 1.0, True, {'depth': 1, 'kind': 'tree'}, {'depth': 2, 'kind': 'tree'}]
+
+
+def twin_id(x):
+    from frozendict import frozendict
+    for i, v in enumerate(TWIN_VALUES):
+        if isinstance(v, dict):
+            if isinstance(x, (dict, frozendict)) and dict(x) == v and all(type(x[k]) is type(v[k]) for k in v):
+                return i + 1
+        elif type(x) is type(v) and x == v:
+            return i + 1
+    return 0
+
+
+def _twin_make():
+    ns = {'__annotations__': {'x': Any}, 'run': run_body, '__module__': __name__, '__qualname__': 'TwinT',
+          'tid': property(lambda self: twin_id(self.x)), 'a': property(lambda self: None), 'b': property(lambda self: ()),
+          'beh': property(lambda self: 'ok')}
+    cls = labtech.task(cache=RecCache())(type('TwinT', (), ns))
+    globals()['TwinT'] = cls
+    return cls
+
+
+TwinT = _twin_make()
